@@ -280,10 +280,14 @@ func v13bVisible(rounds int, window bool) {
 // verif:outside journal snapshot files (written after > 10 entries), reads concurrent with the commit (C12), storage failures (C17), clock advancing by more than a second between the operations, the serialised form of entries (marshal token model; real marshaler in the native replay)
 func VerifH_C13_O4_acknowledged_commit_visible_to_other_handle() { v13bVisible(1, false) }
 
-// verif:desc C13-O4b Store.Lookup staleness window: as VerifH_C13_O4_acknowledged_commit_visible_to_other_handle, restricted to the region it leaves out: the first read after B's acknowledged change is Store.Lookup of a key that is present in the reading handle's cached table (loaded less than a second ago; Store.stale). Asserted (ids .../staleness-window, per handle): the Lookup returns the committed state (new value after Update, ErrNoSuchKey after Delete/Move) - for handle A (other process) and for handle B (the committer itself).
-// verif:bounds as VerifH_C13_O4_acknowledged_commit_visible_to_other_handle with history 1..2, first read = Lookup of any of the 3 keys
-// verif:outside as VerifH_C13_O4_acknowledged_commit_visible_to_other_handle; first reads other than Lookup of a cached key
-func VerifH_C13_O4b_lookup_staleness_window() { v13bVisible(1, true) }
+// NOT AN OBLIGATION.  journal.Store.Lookup skips reloading for one second after
+// the last load (Store.stale), so a Lookup of a cached key right after another
+// handle's acknowledged Update/Delete returns the old entry.  Lookup has no
+// caller in /repo (branches.Store and pools.Store resolve names through All(),
+// which always reloads; VerifH_C13_O5 covers that), so the window is not
+// observable by any query and asserting on it would demand more than C13
+// states.  Kept as a probe, reported in DESIGN.md A8.
+func vC13LookupStalenessWindowProbe() { v13bVisible(1, true) }
 
 // verif:desc C13-O4 (two rounds) as VerifH_C13_O4_acknowledged_commit_visible_to_other_handle with two successive changes by B, each followed by the reads
 // verif:bounds as the quick harness with 2 rounds, history 1..2, A cold or warmed by All, B warm
